@@ -12,7 +12,9 @@ def suites : List (String × Suite) := [
   ("c20", Tally.Drv.C20.suite),
   ("c18", Tally.Drv.C18.suite),
   ("registry", Tally.Drv.Registry.suite),
-  ("c09", Tally.Drv.C09.suite)
+  ("c09", Tally.Drv.C09.suite),
+  ("c15", Tally.Drv.C15.suite),
+  ("c17", Tally.Drv.C17.suite)
 ]
 
 partial def loop (inp : IO.FS.Stream) (out : IO.FS.Stream) (s : Suite) (st : s.σ) : IO Unit := do
